@@ -28,18 +28,18 @@ ASSUMPTIONS = [
     "agreement of the element / object / dispatcher forms are checked",
     "hidden dispatcher entries that are not listed by a get_*_names function (POVM 'xxparity', 'zzparity') are not treated as "
     "outside names",
-    "2-qutrit gate names: the gate_mat form and the effective-Lindbladian mirror are checked on a sub-stride only (the 'gate' "
-    "form calls the same gate_mat function internally); see BOUNDS",
+    "2-qutrit gate names: the effective-Lindbladian forms and the mirror are checked on a sub-stride only (9.6 s per name in "
+    "the library's basis conversion); see BOUNDS",
 ]
 BOUNDS = {
-    "quick": "all state (749) / POVM (112) / gate (identity + 40 names, both id orders x 2 id sets for 2-qubit, 6 role "
-             "permutations x 2 id sets for 3-qubit) / effective-Lindbladian / ensemble (7) names, all 13 single and all 36+3 "
-             "2-qubit measurement-process names in all forms; NOT exhaustive strata: 2-qutrit gate names every 91st of the "
-             "39204 (431 names, unitary_mat + gate forms) + every 9th single-base name with gate_mat and Lindbladian forms "
-             "(22 names); 3-qubit composite measurement processes every 11th of 252, 2-qutrit composites 4 of 16",
-    "thorough": "as quick, plus all 39204 2-qutrit gate names (unitary_mat + gate forms; gate_mat and effective-Lindbladian "
-                "forms on all 198 single-base names and every 97th two-base name), all 252 3-qubit and 16 2-qutrit "
-                "composite measurement processes in all forms",
+    "quick": "complete: all state (749) / POVM (112) / ensemble (7) names, gate + effective-Lindbladian names (identity on 6 "
+             "systems, 15 1-qubit, 5 2-qubit x both role orders x 2 id sets, 2 3-qubit x 6 role permutations x 2 id sets, 18 "
+             "1-qutrit), 13 single + 36 2-qubit + 252 3-qubit + 16 2-qutrit composite measurement-process names, all in every "
+             "listed object_name form; 30 named-basis calls, 20 generate_composite_system calls, legacy constructors on 2 bases, "
+             "testers, about 16000 outside names. NOT exhaustive stratum: 2-qutrit gate names every 13th of the 39204 (3016 "
+             "names, all three gate forms) + every 9th single-base name (22 names) also in the four effective-Lindbladian forms",
+    "thorough": "as quick, with ALL 39204 2-qutrit gate names in all three gate forms (effective-Lindbladian forms and mirror "
+                "on the 198 single-base names and every 97th two-base name = 601 names) and the 343 3-qubit tester states",
 }
 EXHAUSTIVE = {"quick": False, "thorough": True}
 CASE_TIMEOUT = 900
@@ -84,9 +84,6 @@ def mprocess_catalogue(tier):
     out += [("D2,2", a + "_" + b, "pair") for a, b in itertools.product(q1, repeat=2)]
     triples = ["_".join(t) for t in itertools.product(q1, repeat=3)] + [a + "_" + b for a in q2 for b in q1] + [b + "_" + a for a in q2 for b in q1]
     tpairs = [a + "_" + b for a, b in itertools.product(t1, repeat=2)]
-    if tier == "quick":
-        triples = triples[::11]
-        tpairs = tpairs[1::5]
     out += [("D2,2,2", n, "triple") for n in triples]
     out += [("D3,3", n, "qutrit-pair") for n in tpairs]
     return out, len(singles)
@@ -131,26 +128,25 @@ def action_cases():
 
 
 def gate2qt_cases(tier):
+    """light cases: unitary_mat + gate_mat + gate forms and both dispatchers; full cases: also the effective-Lindbladian
+    forms and the mirror (about 80x more expensive: the library's basis conversion of an 81x81 generator)"""
     from quara.objects import gate_typical as gt
     names = gt.get_gate_names_2qutrit()
     single = gt.get_gate_names_2qutrit_single_base_matrix()
+    two = names[len(single):]
     cases = []
     if tier == "quick":
         full = single[::9]
-        light = names[::91]
-        for ch in chunks(full, 2):
-            cases.append({"names": ch, "mat": True, "el": True})
-        for ch in chunks(light, 8):
-            cases.append({"names": ch, "mat": False, "el": False})
+        light = names[::13]
     else:
-        two = names[len(single):]
         full = single + two[::97]
-        fullset = set(full)
-        light = [n for n in names if n not in fullset]
-        for ch in chunks(full, 2):
-            cases.append({"names": ch, "mat": True, "el": True})
-        for ch in chunks(light, 16):
-            cases.append({"names": ch, "mat": False, "el": False})
+        light = names
+    fullset = set(full)
+    light = [n for n in light if n not in fullset]
+    for ch in chunks(full, 2):
+        cases.append({"names": ch, "mat": True, "el": True})
+    for ch in chunks(light, 24):
+        cases.append({"names": ch, "mat": True, "el": False})
     return cases, len(names)
 
 
@@ -207,9 +203,7 @@ def families(tier, seed):
     allforms = mt.get_mprocess_object_names()
     mcases = []
     for tag, name, stratum in mp:
-        heavy = stratum in ("triple", "qutrit-pair")
-        forms = [f for f in allforms if not (heavy and tier == "quick" and f == "hss")]
-        mcases.append({"name": name, "sys": tag, "forms": forms, "dispatch_heavy": not heavy})
+        mcases.append({"name": name, "sys": tag, "forms": list(allforms), "dispatch_heavy": True})
     fams.append(("mprocess", mcases))
     fams.append(("ensemble", [{"name": n} for n in se.get_state_ensemble_names()]))
     leg = [{"what": "gate1", "basis": b} for b in ("Q1", "Q1h")] + [{"what": "gate2", "basis": "Q1", "names": nm} for nm in ([0, 1], [4, 2])] + \
@@ -244,11 +238,11 @@ def guards(summary):
     g = []
     info = summary["info"]
     need = {"selftest_ok": 1, "state_generated": EXPECTED["state"], "povm_generated": EXPECTED["povm"], "povm_rank1": 1,
-            "povm_not_rank1": 1, "gate_generated": 100, "efflind_generated": 100, "mprocess_generated": 50, "mprocess_pure": 1,
+            "povm_not_rank1": 1, "gate_generated": 100, "efflind_generated": 100, "mprocess_generated": 300, "mprocess_pure": 1,
             "mprocess_not_pure": 1, "mprocess_vs_catalogue_povm": 10, "legacy_generated": 40, "csys_generated": 10,
             "basis_flag_true": 10, "basis_flag_false": 5, "ref_verdict_true": 900, "ref_verdict_false": 5,
             "outside_raised": 2000, "outside_names": 500, "action_named_output": 200, "action_curated": 60,
-            "gate2qt_names": 400, "gate2qt_two_base": 300, "gate2qt_single_base": 20, "tester_objects": 100,
+            "gate2qt_names": 3000, "gate2qt_two_base": 2900, "gate2qt_single_base": 30, "tester_objects": 100,
             "depolarized_objects": 50}
     for p in ("01", "10", "012", "021", "102", "120", "201", "210"):
         need["gate_ids_perm_" + p] = 2
